@@ -3040,6 +3040,9 @@ class SymEx:
             return [(st, ('list', ()))]          # nothing to order
         if fv == ('ext', 'COPY') and len(args) == 1 and not kws:
             return [(st, args[0])]
+        if fv in (('ext', 'LIST'), ('ext', 'TUPLE')) and len(args) == 1 and not kws and args[0][0] in ('tuple', 'list') and not any(z_[0] == 'starred' for z_ in args[0][1]) \
+                and all(z_[0] in ('str', 'num', 'const') for z_ in args[0][1]):
+            return [(st, ('list' if fv[1] == 'LIST' else 'tuple', args[0][1]))]          # list(('a', 'b')) of constants written out
         if fv == ('ext', 'builtins.getattr') and len(args) == 2 and not kws and args[1][0] == 'str' and len(e.args) == 2 and args[1][1].isidentifier():
             # getattr(x, 'name') is x.name
             return self.ev(ast.copy_location(ast.Attribute(value=e.args[0], attr=args[1][1], ctx=ast.Load()), e), st)
